@@ -4,16 +4,16 @@
 From Coq Require Import ZifyBool Permutation Sorted.
 From V.Lib Require Import Base MachInt.
 From V.Gen Require Import C17Consts.
-From V.C17 Require Import Model Spec Corr Wf ProofsArith ProofsShuffle ProofsAnchor ProofsClassify ProofsCanon.
+From V.C17 Require Import Model Spec Corr Wf ProofsArith ProofsShuffle ProofsAnchor ProofsClassify ProofsCanon ProofsPerm ProofsWake ProofsWake2.
 Local Open Scope Z_scope.
 
+(** Every operation is bridged. For wake-ups the harness-side brute-force value [bf] that the
+    case carries must agree with the brute force of Spec.v (it is an observation made by the
+    harness, not by the implementation). *)
 Definition bridged (c : case) : bool :=
   match c with
-  | Expiry _ _ | BoundBelow _ _ _ | BoundAbove _ _ _ | IsBoundary _ _ _
-  | ToCode _ _ | FromCode _ _ | Classify _ _ _ | ClassifyPair _ _ _ _ _ | DelayNew _ _ _ | DelayDraw _ _ _ _
-  | Heights _ _ _ _ _ _ | Sched _ _ _ _ _
-  | AnchorDraw _ _ _ _ _ _ | AnchorRedraw _ _ _ _ _ => true
-  | _ => false
+  | Wakeups m _ tip ts _ bf _ => bf_consistent m tip ts bf
+  | _ => true
   end.
 
 Lemma class_eqb_eq x y : class_eqb x y = true <-> x = y.
@@ -68,23 +68,23 @@ Proof.
     rewrite He, app_length. simpl. lia.
 Qed.
 
-Lemma anchor_some_consumes I nu f tip ws b r :
-  draw_anchor_boundary I nu f tip ws = Ok (Some b, r) -> (length r < length ws)%nat.
+Lemma anchor_some_consumes oc I nu f tip ws b r :
+  draw_anchor_boundary oc I nu f tip ws = Ok (Some b, r) -> (length r < length ws)%nat.
 Proof.
   unfold draw_anchor_boundary.
   destruct (candidate_boundary_bounds I nu f (boundary_at_or_below I tip)) as [[lo hi]|]; [|discriminate].
-  destruct (sample_boundary I lo hi (boundary_at_or_below I tip) ws) as [[c r0]| |] eqn:S; try discriminate.
+  destruct (sample_boundary oc I lo hi (boundary_at_or_below I tip) ws) as [[c r0]| |] eqn:S; try discriminate.
   intros H; inversion H; subst. unfold sample_boundary in S. apply sample_go_spec in S; [|lia].
   destruct S as (_ & _ & pre & Hp & He). rewrite He, app_length. destruct pre; [congruence | simpl; lia].
 Qed.
 
-Lemma redraw_some_consumes I prior bc ws b r :
-  redraw_anchor_boundary I prior bc ws = Ok (Some b, r) -> (length r < length ws)%nat.
+Lemma redraw_some_consumes oc I prior bc ws b r :
+  redraw_anchor_boundary oc I prior bc ws = Ok (Some b, r) -> (length r < length ws)%nat.
 Proof.
   unfold redraw_anchor_boundary.
   destruct (checked_sub_u32 (boundary_at_or_below I bc) I) as [hi|]; [|discriminate].
   destruct (hi <? boundary_at_or_above I prior); [discriminate|].
-  destruct (sample_boundary I (boundary_at_or_above I prior) hi (boundary_at_or_below I bc) ws) as [[c r0]| |] eqn:S; try discriminate.
+  destruct (sample_boundary oc I (boundary_at_or_above I prior) hi (boundary_at_or_below I bc) ws) as [[c r0]| |] eqn:S; try discriminate.
   intros H; inversion H; subst. unfold sample_boundary in S. apply sample_go_spec in S; [|lia].
   destruct S as (_ & _ & pre & Hp & He). rewrite He, app_length. destruct pre; [congruence | simpl; lia].
 Qed.
@@ -120,10 +120,56 @@ Proof. decide equality. decide equality. Qed.
 Lemma ocls_some x o : ocls_eqb (Some x) o = true -> o = Some x.
 Proof. destruct o as [y|]; cbn; [intros H; apply class_eqb_eq in H; congruence | discriminate]. Qed.
 
+Lemma shuffle_suffix {A} (l : list A) ws l' r : Forall u64w ws ->
+  shuffle_in_place l ws = Ok (l', r) -> exists pre, ws = pre ++ r.
+Proof.
+  unfold shuffle_in_place. destruct (length l <? 2)%nat; intros Hw H.
+  - inversion H; subst. exists []. reflexivity.
+  - destruct (shuffle_go_suffix _ _ _ _ _ Hw H) as [pre [He _]]. eauto.
+Qed.
+
+Lemma shuffle_go_never_err {A} : forall i (l : list A) ws e, shuffle_go i l ws <> Err e.
+Proof.
+  induction i as [|i IH]; intros l ws e; cbn [shuffle_go]; [discriminate|].
+  destruct (gen_index ws (Z.of_nat (S i) + 1)) as [[j r]| |]; try discriminate. apply IH.
+Qed.
+
+Lemma shuffle_never_err {A} (l : list A) ws e : shuffle_in_place l ws <> Err e.
+Proof. unfold shuffle_in_place. destruct (length l <? 2)%nat; [discriminate | apply shuffle_go_never_err]. Qed.
+
+Lemma shuffle_bridge (l : list Z) ws o :
+  words ws = true -> dres_eqb lz_eqb (consumed ws (shuffle_in_place l ws)) o = true ->
+  on_ok o (fun v k => is_perm v l && (0 <=? k) && (k <=? Z.of_nat (length ws))) = true.
+Proof.
+  intros Hw Hrun. apply words_u64w in Hw. destruct o as [[v k]|e|]; cbn [on_ok].
+  - apply dres_ok in Hrun. destruct Hrun as (v' & rest & Hm & Hd & Hk). apply lz_eqb_eq in Hd. subst v'.
+    rewrite (perm_is_perm _ _ (shuffle_perm _ _ _ _ Hm)).
+    destruct (shuffle_suffix _ _ _ _ Hw Hm) as [pre He].
+    assert (length ws = (length pre + length rest)%nat) by (rewrite He, app_length; reflexivity). lia.
+  - apply dres_err in Hrun. destruct Hrun as [[]|[e' Hm]]. exfalso. exact (shuffle_never_err _ _ _ Hm).
+  - reflexivity.
+Qed.
+
+Lemma anchor_set_empty_iff I nu f tip :
+  0 < I <= u32_max -> 0 <= nu <= u32_max -> 0 <= f <= u32_max -> 0 <= tip <= u32_max ->
+  (anchor_set_empty I nu f tip = true <-> forall b, anchor_ok I nu f tip b = false).
+Proof.
+  intros HI Hnu Hf Ht. unfold anchor_set_empty. rewrite forallb_forall. split.
+  - intros H b. destruct (anchor_ok I nu f tip b) eqn:A; [|reflexivity].
+    pose proof (age_candidates_complete I nu f tip HI Hnu Hf Ht b A) as Hin. specialize (H b Hin). rewrite A in H. discriminate.
+  - intros H b _. rewrite H. reflexivity.
+Qed.
+
+Lemma wk_eqb_eq x y : wk_eqb x y = true <-> x = y.
+Proof.
+  apply list_eqb_spec. intros [a la] [b lb]. unfold pair_eqb. cbn [fst snd].
+  rewrite andb_true_iff, Z.eqb_eq, lz_eqb_eq. split; [intros [-> ->]; reflexivity | intros E; inversion E; auto].
+Qed.
+
 Lemma bridge c : bridged c = true ->
   wf_case c = true -> known_class c = 0%N -> run_case c = true -> prop_case c = true.
 Proof.
-  destruct c; cbn [bridged]; try discriminate; intros _ Hwf Hkc Hrun; cbn [wf_case run_case prop_case] in *.
+  destruct c; cbn [bridged]; intros Hbr Hwf Hkc Hrun; cbn [wf_case run_case prop_case] in *.
   - (* Expiry *)
     apply Z.eqb_eq in Hrun. subst o. unfold h32, in_u32, in_range in Hwf.
     rewrite expiry_canonical at 1. rewrite Z.eqb_refl. cbn [andb].
@@ -139,6 +185,17 @@ Proof.
   - (* IsBoundary *)
     apply eqb_prop in Hrun. subst o. unfold nz32, h32, in_u32, in_range in Hwf. unfold is_boundary.
     pose proof (Z.div_mod h iv ltac:(lia)). apply eqb_true_iff. lia.
+  - (* DefaultDists *)
+    destruct o as [[[tm tc] pm] pc]. unfold nz32 in Hwf.
+    rewrite !andb_true_iff in Hrun. destruct Hrun as [[[R1 R2] R3] R4].
+    apply Z.eqb_eq in R1, R2, R3, R4. subst tm tc pm pc.
+    assert (HI : 0 < iv) by lia.
+    destruct (default_dists_valid iv HI) as (D1 & D2 & _).
+    pose proof (scale_delay_range iv TRANSFER_DELAY_MEAN HI ltac:(unfold TRANSFER_DELAY_MEAN; lia)).
+    pose proof (scale_delay_range iv TRANSFER_DELAY_CAP HI ltac:(unfold TRANSFER_DELAY_CAP; lia)).
+    pose proof (scale_delay_range iv PREP_DELAY_MEAN HI ltac:(unfold PREP_DELAY_MEAN; lia)).
+    pose proof (scale_delay_range iv PREP_DELAY_CAP HI ltac:(unfold PREP_DELAY_CAP; lia)).
+    lia.
   - (* ToCode *)
     apply Z.eqb_eq in Hrun. subst o. rewrite to_code_spec. apply Z.eqb_refl.
   - (* FromCode *)
@@ -158,6 +215,11 @@ Proof.
         destruct (classify_monotone_characterised c e e' Hle Hk Hne) as (_ & H2 & H3).
         cbn [known_class] in Hkc. rewrite Hle, H3, H2 in Hkc. cbn in Hkc. discriminate.
     + apply class_eqb_eq. symmetry. apply nonconforming_stable with (e := e); assumption.
+  - (* ShuffleIdx *)
+    rewrite !andb_true_iff in Hwf. destruct Hwf as [_ Hw].
+    apply (shuffle_bridge (iota (Z.to_nat n) 0) ws o Hw Hrun).
+  - (* ShuffleVals *)
+    apply (shuffle_bridge l ws o Hwf Hrun).
   - (* DelayNew *)
     apply eqb_prop in Hrun. subst o. unfold delay_new. destruct (cap <? mean) eqn:E; destruct (mean <=? cap) eqn:E2; try reflexivity; lia.
   - (* DelayDraw *)
@@ -204,16 +266,16 @@ Proof.
     destruct o as [[b k]|e|]; cbn [on_ok].
     + apply dres_ok in Hrun. destruct Hrun as (b' & rest & Hm & Hd & Hk). apply oz_eqb_eq in Hd. subst b'.
       destruct b as [b|]; cbn [anchor_result_ok].
-      * rewrite (anchor_in_candidates iv nu63 funding tip ltac:(lia) ltac:(lia) ltac:(lia) ltac:(lia) _ _ _ Hm).
-        pose proof (anchor_some_consumes _ _ _ _ _ _ _ Hm). lia.
-      * apply (anchor_none_iff iv nu63 funding tip ltac:(lia) ltac:(lia) ltac:(lia) ltac:(lia)) in Hm.
+      * rewrite (anchor_in_candidates oc iv nu63 funding tip ltac:(lia) ltac:(lia) ltac:(lia) ltac:(lia) _ _ _ Hm).
+        pose proof (anchor_some_consumes _ _ _ _ _ _ _ _ Hm). lia.
+      * apply (anchor_none_iff oc iv nu63 funding tip ltac:(lia) ltac:(lia) ltac:(lia) ltac:(lia)) in Hm.
         destruct Hm as [-> Hall]. unfold anchor_set_empty.
         assert (Hf' : forallb (fun b => negb (anchor_ok iv nu63 funding tip b)) (age_candidates iv tip) = true).
         { apply forallb_forall. intros b _. rewrite Hall. reflexivity. }
         rewrite Hf'. lia.
     + apply dres_err in Hrun. destruct Hrun as [[]|[e' Hm]]. exfalso. revert Hm. unfold draw_anchor_boundary.
       destruct (candidate_boundary_bounds iv nu63 funding (boundary_at_or_below iv tip)) as [[lo hi]|]; [|discriminate].
-      destruct (sample_boundary iv lo hi (boundary_at_or_below iv tip) ws) as [[c r]| |]; discriminate.
+      destruct (sample_boundary oc iv lo hi (boundary_at_or_below iv tip) ws) as [[c r]| |]; discriminate.
     + reflexivity.
   - (* AnchorRedraw *)
     rewrite !andb_true_iff in Hwf. destruct Hwf as [[[HI Hp] Hb] Hw].
@@ -221,9 +283,9 @@ Proof.
     destruct o as [[b k]|e|]; cbn [on_ok].
     + apply dres_ok in Hrun. destruct Hrun as (b' & rest & Hm & Hd & Hk). apply oz_eqb_eq in Hd. subst b'.
       destruct b as [b|]; cbn [redraw_result_ok].
-      * rewrite (redraw_in_candidates iv prior broadcast ltac:(lia) ltac:(lia) ltac:(lia) _ _ _ Hm).
-        pose proof (redraw_some_consumes _ _ _ _ _ _ Hm). lia.
-      * apply (redraw_none_iff iv prior broadcast ltac:(lia) ltac:(lia) ltac:(lia)) in Hm.
+      * rewrite (redraw_in_candidates oc iv prior broadcast ltac:(lia) ltac:(lia) ltac:(lia) _ _ _ Hm).
+        pose proof (redraw_some_consumes _ _ _ _ _ _ _ Hm). lia.
+      * apply (redraw_none_iff oc iv prior broadcast ltac:(lia) ltac:(lia) ltac:(lia)) in Hm.
         destruct Hm as [-> Hall].
         assert (Hf' : forallb (fun b => negb (redraw_ok iv prior broadcast b)) (age_candidates iv broadcast) = true).
         { apply forallb_forall. intros b _. rewrite Hall. reflexivity. }
@@ -231,6 +293,59 @@ Proof.
     + apply dres_err in Hrun. destruct Hrun as [[]|[e' Hm]]. exfalso. revert Hm. unfold redraw_anchor_boundary.
       destruct (checked_sub_u32 (boundary_at_or_below iv broadcast) iv) as [hi|]; [|discriminate].
       destruct (hi <? boundary_at_or_above iv prior); [discriminate|].
-      destruct (sample_boundary iv (boundary_at_or_above iv prior) hi (boundary_at_or_below iv broadcast) ws) as [[c r]| |]; discriminate.
+      destruct (sample_boundary oc iv (boundary_at_or_above iv prior) hi (boundary_at_or_below iv broadcast) ws) as [[c r]| |]; discriminate.
     + reflexivity.
+  - (* Earliest *)
+    apply Z.eqb_eq in Hrun. subst o. rewrite !andb_true_iff in Hwf. destruct Hwf as [[HI Hnu] Hf].
+    unfold nz32, h32, in_u32, in_range in *.
+    assert (Hr : earliest_broadcast_height iv nu63 funding <= u32_max) by (unfold earliest_broadcast_height, sat_add_u32; lia).
+    apply andb_true_iff. split; [|lia]. unfold earliest_ok.
+    destruct (earliest_broadcast_height iv nu63 funding =? u32_max) eqn:E; [reflexivity|].
+    set (e := earliest_broadcast_height iv nu63 funding) in *.
+    pose proof (lowest_nonneg iv nu63 funding ltac:(lia) ltac:(lia)) as Hl0.
+    assert (He : e = lowest_candidate_boundary iv nu63 funding + iv) by (unfold e, earliest_broadcast_height, sat_add_u32 in *; lia).
+    assert (HI' : 0 < iv <= u32_max) by lia. assert (Hnu' : 0 <= nu63 <= u32_max) by lia.
+    assert (Hf' : 0 <= funding <= u32_max) by lia. assert (Her : 0 <= e <= u32_max) by lia.
+    assert (A1 : anchor_set_empty iv nu63 funding e = false).
+    { destruct (anchor_set_empty iv nu63 funding e) eqn:X; [|reflexivity]. exfalso.
+      pose proof (proj1 (anchor_set_empty_iff iv nu63 funding e HI' Hnu' Hf' Her) X) as X'.
+      destruct (proj2 (earliest_threshold iv nu63 funding e HI' Hnu' Hf' Her) ltac:(lia)) as [b Hb0].
+      rewrite X' in Hb0. discriminate. }
+    rewrite A1. cbn [negb andb]. destruct (e =? 0) eqn:E0; [reflexivity|]. cbn [orb].
+    assert (Her1 : 0 <= e - 1 <= u32_max) by lia.
+    apply (proj2 (anchor_set_empty_iff iv nu63 funding (e - 1) HI' Hnu' Hf' Her1)).
+    intros b. destruct (anchor_ok iv nu63 funding (e - 1) b) eqn:A; [|reflexivity]. exfalso.
+    assert (lowest_candidate_boundary iv nu63 funding + iv <= e - 1).
+    { apply (proj1 (earliest_threshold iv nu63 funding (e - 1) HI' Hnu' Hf' Her1)). eauto. }
+    lia.
+  - (* CanonDenom *)
+    rewrite !andb_true_iff in Hwf. destruct Hwf as [[Hlo Hhi] Hv]. unfold in_range, MAX_MONEY_Z, COIN in *.
+    destruct (Z_le_gt_dec 1 v) as [G|G].
+    + rewrite canonical_opt_terminates in Hrun by (try right; lia).
+      rewrite canonical_equiv_gen in Hrun by (try right; lia).
+      destruct o as [b|]; cbn [option_eqb] in *; [apply eqb_prop in Hrun; subst b; apply eqb_reflx | discriminate].
+    + assert (v = 0) by lia. subst v.
+      destruct (Z_le_gt_dec 1 lo) as [G2|G2].
+      * rewrite canonical_opt_terminates in Hrun by (try left; lia).
+        rewrite canonical_equiv_gen in Hrun by (try left; lia).
+        destruct o as [b|]; cbn [option_eqb] in *; [apply eqb_prop in Hrun; subst b; apply eqb_reflx | discriminate].
+      * assert (lo = 0) by lia. subst lo. exfalso.
+        rewrite canonical_zero_bound_refuted in Hrun by lia.
+        destruct o as [b|]; cbn in Hrun; [discriminate|]. cbn in Hkc. discriminate.
+  - (* Wakeups *)
+    rewrite !andb_true_iff in Hwf. destruct Hwf as [[[[Hm Hj] Htip] Hw] Hts].
+    apply words_u64w in Hw. unfold h32, in_u32, in_range in *.
+    assert (Hts' : Forall (fun t => snd t <= u32_max) ts).
+    { apply Forall_forall. intros t Ht. rewrite forallb_forall in Hts. specialize (Hts t Ht). lia. }
+    unfold wres_eqb, wakeups_consumed in Hrun.
+    destruct (schedule_sync_wakeups margin jitter tip ts ws) as [[wk' rest]|e|] eqn:M; destruct o as [[wk k]|id|]; cbn in Hrun; try discriminate.
+    + unfold pair_eqb in Hrun; cbn [fst snd] in Hrun. apply andb_true_iff in Hrun. destruct Hrun as [Ew _].
+      apply wk_eqb_eq in Ew. subst wk'.
+      rewrite (wakeups_ok_model margin jitter tip ts ws ltac:(lia) Hw Hts' ltac:(lia) wk rest M bf Hbr). cbn [andb].
+      destruct (first_infeasible ts) as [id|] eqn:F; [|reflexivity].
+      apply (wakeups_infeasible_iff margin jitter tip ts ws) in F. congruence.
+    + apply Z.eqb_eq in Hrun. subst id. apply (wakeups_infeasible_iff margin jitter tip ts ws) in M. rewrite M.
+      apply oz_eqb_eq. reflexivity.
+    + destruct (first_infeasible ts) as [id|] eqn:F; [|reflexivity].
+      apply (wakeups_infeasible_iff margin jitter tip ts ws) in F. congruence.
 Qed.
